@@ -121,10 +121,23 @@ def validate(ctx, traces, module, sigfn, label):
         rt = evs[st - 1:end]
         for sig in sigfn(kind, runev or {}, rt, line - st):
             vlib.report_failure(ctx, sig, dict(line=line - st, kind=kind, case=(runev or {}).get("case"), run_trace=rt))
+    # a run the driver abandoned (its set-up failed before the signal: a request did not get through in time, a process
+    # did not come up) decides nothing, whatever was recorded before the `abandon` event
+    abandoned = set()
+    cur_start = 0
+    for i, e in enumerate(evs, 1):
+        if e["ev"] == "run":
+            cur_start = i
+        elif e["ev"] == "abandon":
+            abandoned.add(cur_start)
+    def in_abandoned(line):
+        return run_at.get(line, (None, 0))[1] in abandoned
     for line, kinds in sorted(mm.items()):
+        if in_abandoned(line):
+            continue
         for k in sorted(kinds):
             fail(line, k)
-    if v["matched"] is not None and v["matched"] < len(evs):
+    if v["matched"] is not None and v["matched"] < len(evs) and not in_abandoned(v["matched"] + 1):
         fail(v["matched"] + 1, "trace-rejected:" + evs[v["matched"]]["ev"])
     return evs
 
